@@ -203,6 +203,17 @@ def check(run, replay=None):
                        'incl. 0, 1, 2^32-1 and operations on destroyed objects. Every history ends with RunMessageHandlers on both buses for PGN 0, every handler PGN and PGNs '
                        'below/between/above. Extracted model (with the abstract machine run alongside), C++ and the Python oracle are compared on every call list, the final '
                        'lists and the object table; non-trivial = distinct history')
+    shared = bool(replay) and any(l.startswith('# family: rx-shared-') for l in open(replay))
+    if shared or not replay:
+        # "each received message reaches the handlers exactly once" at reassembly level: the cases and the oracle of C02 (every delivery is
+        # the reassembly of frames received before it, each frame used once; within the slot capacity the deliveries are those of an unbounded
+        # reference receiver, in order) - interleaved senders, losses, ISO-TP announcements in the middle of a fast packet, application PGN lists
+        import p_C02
+        scases = cases if shared else p_C02.gen(run.seed, run.tier)[::(3 if run.tier == 'quick' else 7)]
+        for fs in ('w64', 'w32'):
+            vlib.correspond(run, 'rx-shared-' + fs, 'h_node', fs, 'NODE', scases, p_C02.oracle, p_C02.nontrivial, known=p_C02.known, model_args=[fs])
+        if shared:
+            return
     vlib.correspond(run, 'handlers', 'h_handlers', 'w64', 'C14', cases, oracle, None)
     # second sentence of the property: node-level delivery (messages the library consumes are still passed on, each message once,
     # TP control/data frames never), through the shared node harness and model
